@@ -46,7 +46,9 @@ def chain_of(body, local, limit=24):
                 else:
                     for p_ in body.rvalue_places(x_['rv']):
                         places.append(canon(body, p_))
-                        if x_['rv']['rk'] in ('use', 'ref', 'discriminant', 'cast') and p_['l'] not in seen:
+                        if (x_['rv']['rk'] in ('use', 'ref', 'discriminant', 'cast') or
+                                (x_['rv']['rk'] == 'aggregate' and x_['rv']['agg'].endswith(('Option::Some', 'Result::Ok')) and
+                                 body.locals[p_['l']].startswith(('std::result::Result<', 'std::option::Option<')))) and p_['l'] not in seen:
                             n2, c2, p2 = chain_of(body, p_['l'], limit // 2)
                             calls.extend(c for c in c2 if not any(c is y for y in calls))
                             places.extend(p2)
@@ -84,6 +86,12 @@ def chain_of(body, local, limit=24):
             nxt = [op_local(o) for o in rv['ops'] if op_local(o) is not None]
             cur = nxt[0] if nxt else None
         elif rv['rk'] == 'cast' and op_place(rv['ops'][0]):
+            cur = op_local(rv['ops'][0])
+        elif rv['rk'] == 'aggregate' and rv['agg'].endswith(('Option::Some', 'Result::Ok')) and len(rv.get('ops', [])) == 1 and op_place(rv['ops'][0]) and \
+                body.locals[op_local(rv['ops'][0])].startswith(('std::result::Result<', 'std::option::Option<')):
+            # an outcome wrapped by a helper (`Some(stdin.write_all(..))`: Option<io::Result<()>>) and unwrapped again by the caller's `?`: the same
+            # outcome (a payload that is not itself an outcome - `Ok(module)` - ends the chain)
+            places.append(canon(body, op_place(rv['ops'][0])))
             cur = op_local(rv['ops'][0])
         else:
             break
